@@ -87,15 +87,55 @@ def _resolve_bound(fi, flow, e: ast.AST, at: int, depth=0) -> Optional[Tuple[str
             else:
                 res.add(r)
         real = {r for r in res if r[0] != "computed"}
+        if ("computed", "") in res:
+            # some definition is not a hydraulic bound (e.g. thX = th_fc + log(A), th_s + 0.01): the name is a bound only where it has been
+            # compared with one (checked by the caller on the path)
+            return ("computed", "")
         if len(real) == 1:
             return real.pop()
         if len(real) > 1:
             idx = {r[1] for r in real}
             return ("several", idx.pop()) if len(idx) == 1 else None
         return ("computed", "")
-    if isinstance(e, ast.BinOp) and isinstance(e.op, (ast.Sub, ast.Add)):
-        return _resolve_bound(fi, flow, e.left, at, depth + 1)
+    if isinstance(e, ast.BinOp) and isinstance(e.op, ast.Sub):
+        return _resolve_bound(fi, flow, e.left, at, depth + 1)        # bound - x (x >= 0 by the surrounding tests) is no larger than the bound
     return None
+
+
+def _computed_bound_limited(fi, flow, name: str, at: int, idx: str) -> bool:
+    """every definition of `name` that is not itself a hydraulic bound reaches node `at` only along an edge on which `name <= B` is known
+    for a hydraulic bound B of compartment [idx]: the False edge of `name > B` (whose True edge re-assigns the bound) or the True edge of
+    `name <= B`.  Paths on which the name is re-defined are cut (the new definition is judged on its own)."""
+    cfg = flow.cfg
+    for d in flow.defs_reaching(name, at):
+        if d == ENTRY:
+            return False
+        st = cfg.nodes[d].ast
+        if not isinstance(st, ast.Assign):
+            return False
+        rb = _resolve_bound(fi, flow, st.value, d)
+        if rb is not None and rb[0] != "computed" and (not rb[1] or rb[1] == idx):
+            continue                      # this definition is a bound of the compartment
+        seen, stack = set(), [(t, l, d) for t, l in cfg.nodes[d].succs]
+        while stack:
+            k, lab, src = stack.pop()
+            sn = cfg.nodes[src]
+            # the edge src -(lab)-> k: does it establish name <= B ?
+            c = sn.ast
+            if sn.kind == "test" and isinstance(c, ast.Compare) and len(c.ops) == 1 and norm(c.left) == name:
+                rb3 = _resolve_bound(fi, flow, c.comparators[0], src)
+                real = rb3 is not None and rb3[0] != "computed" and (not rb3[1] or rb3[1] == idx)
+                if real and ((isinstance(c.ops[0], (ast.LtE, ast.Lt)) and lab is True) or (isinstance(c.ops[0], (ast.Gt, ast.GtE)) and lab is False)):
+                    continue              # limited along this edge
+            if k == at:
+                return False
+            if k in seen:
+                continue
+            seen.add(k)
+            if name in flow.defs_at.get(k, []):
+                continue                  # re-defined: this definition no longer reaches along here
+            stack.extend((t, l, k) for t, l in cfg.nodes[k].succs)
+    return True
 
 
 def rule_a(chk, prog):
@@ -183,6 +223,13 @@ def _cap_follows(fi, flow, nid, target, cell, idx) -> Tuple[bool, str]:
         if rb is None:
             return False, f"the bound `{norm(bound)}` of the comparison `{norm(c.ast)}` is not a saturation / field-capacity value"
         attr, bidx = rb
+        if attr == "computed":
+            # a threshold computed from the drainage characteristic (thX) is a bound of the compartment only where it has itself been
+            # compared with a hydraulic bound of that compartment: on the `thX <= th_s` side of such a test (not on the `thX > th_s` side)
+            limited = isinstance(bound, ast.Name) and _computed_bound_limited(fi, flow, bound.id, c.id, idx)
+            if not limited:
+                return False, (f"the comparison `{norm(c.ast)}` bounds the cell by the computed threshold `{norm(bound)}` on a path where that threshold "
+                               "is not itself limited by the compartment's saturation (it is reached on the `threshold > saturation` side)")
         if attr not in ("computed",) and bidx and bidx != idx:
             return False, (f"the comparison `{norm(c.ast)}` bounds compartment [{idx}] by the value of compartment [{bidx}] "
                            f"({attr}[{bidx}])")
